@@ -56,11 +56,35 @@ class Built:
         self.empty_at_build = {a for a in LAZY_ATTRS if a in matrix.__dict__ and matrix.__dict__[a] is None}
 
 
-def build_base(cls, n, seed, opt):
-    """Construct a matrix of a base class from seed; returns Built."""
+def lay(a, mode):
+    """Same values, different memory layout: 0 C-contiguous, 1 Fortran-contiguous,
+    2 non-contiguous strided view into a larger array."""
+    a = np.asarray(a)
+    if mode % 3 == 0 or a.ndim == 0:
+        return np.ascontiguousarray(a)
+    if mode % 3 == 1:
+        return np.asfortranarray(a) if a.ndim == 2 else np.ascontiguousarray(a)
+    if a.ndim == 1:
+        big = np.zeros(2 * a.size + 1, dtype=a.dtype)
+        big[1::2] = a
+        return big[1::2]
+    big = np.zeros((2 * a.shape[0], 2 * a.shape[1] + 1), dtype=a.dtype)
+    big[::2, 1::2] = a
+    return big[::2, 1::2]
+
+
+def build_base(cls, n, seed, opt, layout=0):
+    """Construct a matrix of a base class from seed; returns Built.  `layout` selects the
+    memory layout of the caller-supplied arrays (values are identical for every layout)."""
+    b = _build_base(cls, n, seed, opt, layout)
+    return b
+
+
+def _build_base(cls, n, seed, opt, layout):
     from mici import matrices as M
 
     g = np.random.default_rng(seed)
+    L = lambda x: lay(x, layout)  # noqa: E731
     if cls == "Identity":
         return Built(M.IdentityMatrix(n), [])
     if cls == "ScaledIdentity":
@@ -68,10 +92,10 @@ def build_base(cls, n, seed, opt):
     if cls == "PositiveScaledIdentity":
         return Built(M.PositiveScaledIdentityMatrix(float(g.uniform(0.5, 3)), n), [])
     if cls == "Diagonal":
-        d = g.uniform(0.5, 2, n) * g.choice([-1, 1], n)
+        d = L(g.uniform(0.5, 2, n) * g.choice([-1, 1], n))
         return Built(M.DiagonalMatrix(d), [d])
     if cls == "PositiveDiagonal":
-        d = g.uniform(0.5, 2, n)
+        d = L(g.uniform(0.5, 2, n))
         return Built(M.PositiveDiagonalMatrix(d), [d])
     if cls in ("Triangular", "InverseTriangular"):
         lower = bool(opt % 2)
@@ -79,11 +103,12 @@ def build_base(cls, n, seed, opt):
         a = g.standard_normal((n, n)) * 0.4 + np.diag(g.uniform(0.8, 1.6, n))
         if not mk:
             a = np.tril(a) if lower else np.triu(a)
+        a = L(a)
         c = M.TriangularMatrix if cls == "Triangular" else M.InverseTriangularMatrix
         return Built(c(a, lower=lower, make_triangular=mk), [a])
     if cls in ("TriangularFactoredDefinite", "TriangularFactoredPositiveDefinite"):
         lower = bool(opt % 2)
-        a = g.standard_normal((n, n)) * 0.4 + np.diag(g.uniform(0.8, 1.6, n))
+        a = L(g.standard_normal((n, n)) * 0.4 + np.diag(g.uniform(0.8, 1.6, n)))
         as_matrix = (opt // 2) % 3
         if as_matrix == 1:
             f = M.TriangularMatrix(a, lower=lower)
@@ -99,17 +124,17 @@ def build_base(cls, n, seed, opt):
         a = _spd(g, n)
         with_factor = bool(opt % 2)
         posdef = cls == "DensePositiveDefinite" or not bool((opt // 2) % 2)
-        arr = a if posdef else -a
+        arr = L(a if posdef else -a)
         fac = M.TriangularMatrix(np.linalg.cholesky(a), lower=True, make_triangular=False) if with_factor else None
         if cls == "DensePositiveDefinite":
             return Built(M.DensePositiveDefiniteMatrix(arr, fac), [arr])
         return Built(M.DenseDefiniteMatrix(arr, fac, is_posdef=posdef), [arr])
     if cls == "DensePositiveDefiniteProduct":
-        r = g.standard_normal((n, n + 1 + opt % 2))
+        r = L(g.standard_normal((n, n + 1 + opt % 2)))
         pd = M.PositiveDiagonalMatrix(g.uniform(0.5, 2, r.shape[1])) if (opt // 2) % 2 else None
         return Built(M.DensePositiveDefiniteProductMatrix(r, pd), [r])
     if cls == "DenseSquare":
-        a = g.standard_normal((n, n)) + 2 * np.eye(n)
+        a = L(g.standard_normal((n, n)) + 2 * np.eye(n))
         if opt % 2:
             import scipy.linalg as sla
 
@@ -118,7 +143,7 @@ def build_base(cls, n, seed, opt):
         return Built(M.DenseSquareMatrix(a), [a])
     if cls == "DenseSymmetric":
         a = g.standard_normal((n, n))
-        a = a + a.T + np.diag(g.choice([-3, 3], n))
+        a = L(a + a.T + np.diag(g.choice([-3, 3], n)))
         if opt % 3 == 1:
             w, v = np.linalg.eigh(a)
             return Built(M.DenseSymmetricMatrix(a, v, w), [a, v, w])
@@ -127,25 +152,26 @@ def build_base(cls, n, seed, opt):
             return Built(M.DenseSymmetricMatrix(a, M.OrthogonalMatrix(v), w), [a, v, w])
         return Built(M.DenseSymmetricMatrix(a), [a])
     if cls == "Orthogonal":
-        q = _orth(g, n)
+        q = L(_orth(g, n))
         return Built(M.OrthogonalMatrix(q), [q])
     if cls == "ScaledOrthogonal":
-        q = _orth(g, n)
+        q = L(_orth(g, n))
         return Built(M.ScaledOrthogonalMatrix(float(g.choice([-1.5, 0.7, 2.0])), q), [q])
     if cls in ("EigendecomposedSymmetric", "EigendecomposedPositiveDefinite"):
-        q = _orth(g, n)
+        q = L(_orth(g, n))
         w = g.uniform(0.5, 2, n)
         if cls == "EigendecomposedSymmetric":
             w = w * g.choice([-1, 1], n)
+        w = L(w)
         ev = M.OrthogonalMatrix(q) if opt % 2 else q
         c = M.EigendecomposedSymmetricMatrix if cls == "EigendecomposedSymmetric" else M.EigendecomposedPositiveDefiniteMatrix
         return Built(c(ev, w), [q, w])
     if cls == "SoftAbs":
         a = g.standard_normal((n, n))
-        a = a + a.T
+        a = L(a + a.T)
         return Built(M.SoftAbsRegularizedPositiveDefiniteMatrix(a, float(g.choice([0.5, 1.0, 2.0]))), [a])
     if cls == "DenseRectangular":
-        a = g.standard_normal((n, n + 1 + opt % 2))
+        a = L(g.standard_normal((n, n + 1 + opt % 2)))
         return Built(M.DenseRectangularMatrix(a), [a])
     raise KeyError(cls)
 
@@ -268,7 +294,7 @@ class MatrixMachine:
         self.violations.append(violation(cls, sig, msg))
 
     def add(self, builder):
-        a, b = builder(), builder()  # both built before either is added
+        a, b = builder(0), builder(1)  # both built before either is added; twin uses another layout
         self.pool.append(a)
         self.twins.append(b)
         return len(self.pool) - 1
@@ -417,7 +443,8 @@ class MatrixMachine:
         kind = op[0]
         if kind == "new":
             _, cls, n, seed, opt = op
-            self.add(lambda: build_base(cls, n, seed, opt))
+            lay0 = seed % 3
+            self.add(lambda k: build_base(cls, n, seed, opt, lay0 + k))
             return
         if not self.pool:
             return
